@@ -139,10 +139,29 @@ func droppedErrorsTo(c *Check, fn *ssa.Function, extraExempt func(name string) b
 		if _, ok := errExempt[name]; ok {
 			continue
 		}
+		// the same call through a first-party interface the caller declares for itself: every implementation
+		// it can reach is a tabled cleanup call
+		if s.Common().IsInvoke() {
+			cals := c.G.CalleesOf(s)
+			all := len(cals) > 0
+			for _, cal := range cals {
+				if _, ok := errExempt[calleeFullName(cal)]; !ok {
+					all = false
+				}
+			}
+			if all {
+				continue
+			}
+		}
 		if extraExempt != nil && extraExempt(name) {
 			continue
 		}
 		if _, ok := probeExempt[c.P.FuncName(fn)+"|"+name]; ok {
+			continue
+		}
+		if lookupWithFoundFlag(s) {
+			// `v, found, _ := lookup(k); if found { … }`: a lookup that reports (value, found, error) answers
+			// found == false when it fails; the caller that branches on found treats a failure as absence
 			continue
 		}
 		if errorIsNegativeAnswer(fn, s) {
@@ -529,4 +548,52 @@ func requireNoDroppedErrors(c *Check, rule string, fns []*ssa.Function, extraExe
 				"the error of this call can be ignored and the function still returns success ("+c.P.InstrPos(x.At)+")", c.P.InstrPos(x.Call))
 		}
 	}
+}
+
+// calleeFullName renders a function the way engine.CalleeName renders a static call to it.
+func calleeFullName(f *ssa.Function) string {
+	if f == nil {
+		return ""
+	}
+	return f.String()
+}
+
+// lookupWithFoundFlag: the call returns (T, bool, error), its error is never extracted, and its bool result is
+// branched on.
+func lookupWithFoundFlag(s ssa.CallInstruction) bool {
+	res := s.Common().Signature().Results()
+	if res.Len() != 3 || res.At(1).Type().String() != "bool" || res.At(2).Type().String() != "error" {
+		return false
+	}
+	v := s.Value()
+	if v == nil || v.Referrers() == nil {
+		return false
+	}
+	foundUsed, errUsed := false, false
+	for _, r := range *v.Referrers() {
+		ex, ok := r.(*ssa.Extract)
+		if !ok {
+			continue
+		}
+		switch ex.Index {
+		case 1:
+			if ex.Referrers() != nil {
+				for _, u := range *ex.Referrers() {
+					if _, isIf := u.(*ssa.If); isIf {
+						foundUsed = true
+					}
+				}
+			}
+		case 2:
+			// `_` still yields an (unused) extract
+			if ex.Referrers() != nil {
+				for _, u := range *ex.Referrers() {
+					if _, isDbg := u.(*ssa.DebugRef); !isDbg {
+						errUsed = true
+					}
+				}
+			}
+		}
+	}
+	return foundUsed && !errUsed
 }
